@@ -341,6 +341,8 @@ def tree_case(draw):
 CONVENIENCE = [
     {'k': 'string', 'min': 0, 'max': None, 'utf8': False, 'text': True},
     {'k': 'string', 'min': 0, 'max': 12, 'utf8': False, 'text': True},
+    {'k': 'string', 'min': 0, 'max': 12, 'utf8': True, 'text': True},
+    {'k': 'array', 'of': {'k': 'string', 'min': 0, 'max': None, 'utf8': True, 'text': True}, 'min': 0, 'max': 2},
     {'k': 'blob', 'min': 0, 'max': 0},
     {'k': 'string', 'min': 3, 'max': None, 'utf8': True},
     {'k': 'array', 'of': {'k': 'enum', 'members': {'a': 1, 'b': 2}}, 'min': 0, 'max': 2},
